@@ -16,6 +16,7 @@ coq/Makefile.coq: coq/_CoqProject
 	cd coq && coq_makefile -f _CoqProject -o Makefile.coq
 
 coq: tables coq/Makefile.coq
+	@mkdir -p build
 	cd coq && timeout $(COQ_TIMEOUT) $(MAKE) -f Makefile.coq -j$(JOBS) 2>&1 | grep -v "conda.cli" > ../build/coq.log; test $${PIPESTATUS[0]} -eq 0 || (tail -40 ../build/coq.log; exit 1)
 
 # Extract.v and ocaml/table.ml are generated from the list of e_* entry points
